@@ -173,7 +173,7 @@ def run_case(inp):
     via = inp["via"]
     try:
         with dask.config.set(scheduler="synchronous"):
-            if via in ("single", "no_template", "multi"):
+            if via in ("single", "no_template", "multi", "align_list"):
                 outs = []
                 for (p, R), V in zip(moles, tomos):
                     ld = SubtomogramLoader(V, Molecules(p[None], Rotation.from_quat(R.as_quat()[None])), order=1,
@@ -183,6 +183,11 @@ def run_case(inp):
                     elif via == "multi":
                         other = _template(inp["seed"] + 999, n)
                         o = ld.align_multi_templates([other, tmpl], max_shifts=ms, alignment_model=M, **kw)
+                    elif via == "align_list":
+                        # several templates handed to align() itself (list and 4-D stack forms)
+                        other = _template(inp["seed"] + 999, n)
+                        tl = [other, tmpl] if inp["seed"] % 2 else np.stack([other, tmpl], axis=0)
+                        o = ld.align(tl, max_shifts=ms, alignment_model=M, **kw)
                     else:
                         o = None
                     outs.append(o)
@@ -231,7 +236,11 @@ def run_case(inp):
 def oracle(rng, thorough, deep=False, hints=None):
     big = thorough or deep
     cases = []
-    vias = ["single", "batch", "group", "multi"]
+    vias = ["single", "batch", "group", "multi", "align_list"]
+    # always: several templates through align() at a scale far from 1 with a shift near the end of the range
+    for sc, dd in ((2.0, [2.0, -2.0, 1.0]), (0.5, [-2.0, 1.0, 2.0])):
+        cases.append(dict(via="align_list", model="ZNCC", n=16, scale=sc, K=1, ks=[0], nmol=1, d=dd, max_shifts=3.0,
+                          seed=int(rng.integers(0, 10 ** 6))))
     for it in range(20 if big else 6):
         K = [3, 1, 4][it % 3]
         cases.append(dict(via=vias[it % len(vias)], model=["ZNCC", "NCC", "PCC"][it % 3] if it % 4 != 3 else "ZNCC",
